@@ -54,7 +54,11 @@ func main() {
 		if len(stack) > 3000 {
 			stack = stack[:3000]
 		}
-		ctx.R.Violation("panic:"+last, fmt.Sprintf("panic %v after %s\n%s", p, strings.Join(calls, " ; "), stack), map[string]interface{}{"calls": calls})
+		cls := "panic:"
+		if msg, ok := p.(string); ok && strings.HasPrefix(msg, "the step did not return") {
+			cls = "hang:"
+		}
+		ctx.R.Violation(cls+last, fmt.Sprintf("panic %v after %s\n%s", p, strings.Join(calls, " ; "), stack), map[string]interface{}{"calls": calls})
 	}
 	c.Run(ctx)
 	pprof.StopCPUProfile()
